@@ -4,7 +4,7 @@
 
   `flatten_same_times`: take a complete accepted history of a nested tree `c` and a complete accepted history of a flat
   graph `c'` (one scheduler, atomic jobs only), both without window, timeout or forever job, in which no body raises, no
-  orchestration fails (no `orchFail` event) and shutdown handlers take no time.  Let `ρ` rename the atomic jobs of `c` into the jobs of `c'` so that the requirements
+  orchestration fails (no `orchFail` event), the top-level task is not cancelled from outside (no `extCancel` event) and shutdown handlers take no time.  Let `ρ` rename the atomic jobs of `c` into the jobs of `c'` so that the requirements
   of `ρ j` in `c'` are (as a set) the renamed `flatReq c j` — the requirements of `j` in the flattened graph: the exit
   jobs of what `j` requires, inherited from the enclosing schedulers when `j` requires nothing — and so that the body of
   `ρ j` lasts as long as the body of `j`.  If the two top-level runs begin at the same instant, every atomic job begins
@@ -29,12 +29,14 @@ structure PlainRun (c : Cfg) (evs : List EvB) : Prop where
   plain  : ∀ j, j < c.n → c.window j = 0 ∧ c.timeout j = none ∧ c.forever j = false
   ok     : ∀ j ok, EvB.bodyEnd j ok ∈ evs → ok = true
   nofail : ∀ s, EvB.orchFail s ∉ evs
+  /-- nobody cancels the top-level task from outside -/
+  noext  : EvB.extCancel ∉ evs
   zero   : ∀ a d b sta, evs = a ++ EvB.tick d :: b → acceptB c StB.init a = some sta →
              ∀ k, k < c.n → sta.hph k ≠ .hactive
 
 theorem PlainRun.sat {c : Cfg} {evs : List EvB} (p : PlainRun c evs) : (timingOf c evs).Sat c (durOf c evs) := by
   obtain ⟨st, h, hover⟩ := p.over
-  exact run_sat c p.wf evs st h hover p.plain p.ok p.nofail p.zero
+  exact run_sat c p.wf evs st h hover p.plain p.ok p.nofail p.noext p.zero
 
 /-- in such a history every job did begin and end (the default `0` of `timingOf` is never used), and ended after it
     began -/
@@ -42,8 +44,8 @@ theorem plain_run_defined (c : Cfg) (evs : List EvB) (p : PlainRun c evs) (j : N
     (∃ t, firstNow c (beganP j) StB.init evs = some t) ∧ (∃ t, firstNow c (endedP j) StB.init evs = some t) ∧
     (timingOf c evs).B j ≤ (timingOf c evs).E j := by
   obtain ⟨st, h, hover⟩ := p.over
-  have h1 := run_all_begin_end c p.wf evs st h hover p.plain p.ok p.nofail j hj
-  exact ⟨h1.1, h1.2, run_begin_le_end c p.wf evs st h hover p.plain p.ok p.nofail j hj⟩
+  have h1 := run_all_begin_end c p.wf evs st h hover p.plain p.ok p.nofail p.noext j hj
+  exact ⟨h1.1, h1.2, run_begin_le_end c p.wf evs st h hover p.plain p.ok p.nofail p.noext j hj⟩
 
 /-- C10 (d): a nested tree and its flattened graph give every job the same begin and end instants -/
 theorem flatten_same_times (c c' : Cfg) (evs evs' : List EvB) (ρ : Nat → Nat)
@@ -79,7 +81,7 @@ theorem plain_runs_same_times (c : Cfg) (evs evs' : List EvB) (p : PlainRun c ev
 theorem plainCheck_spec (c : Cfg) (evs : List EvB) (h : plainCheck c evs = true) : PlainRun c evs := by
   simp only [plainCheck, Bool.and_eq_true, beq_iff_eq, List.all_eq_true, List.mem_range] at h
   obtain ⟨⟨⟨⟨⟨h1, h2⟩, h3⟩, h4⟩, h4'⟩, h5⟩ := h
-  refine ⟨h1, ?_, fun j hj => ?_, okCheck_spec evs h4, nfCheck_spec evs h4', zeroCheck_spec c evs StB.init h5⟩
+  refine ⟨h1, ?_, fun j hj => ?_, okCheck_spec evs h4, nfCheck_spec evs h4', nfCheck_spec_ext evs h4', zeroCheck_spec c evs StB.init h5⟩
   · cases hacc : acceptB c StB.init evs with
     | none => rw [hacc] at h2; cases h2
     | some st => rw [hacc] at h2; exact ⟨st, rfl, by simpa using h2⟩
